@@ -235,6 +235,22 @@ def _m_just(align):
     return f
 
 
+def _m_partition(it, v, args, kwargs, node):
+    """s.partition(sep): exact for literals and when s visibly starts with the literal separator"""
+    sep = it.resolve(args[0]) if args else None
+    if isinstance(sep, SeqV) and sep.is_lit() and sep.kind == v.kind and len(sep.lit_value()) > 0:
+        sp = sep.lit_value()
+        if v.is_lit():
+            a, b, c = v.lit_value().partition(sp)
+            return TupleV([lit(a), lit(b), lit(c)])
+        if v.segs and isinstance(v.segs[0], Lit) and v.segs[0].data.startswith(sp):
+            rest = seqops.slice_seq(it, v, Lin.const(len(sp)), v.length())
+            return TupleV([lit(sp[:0]), lit(sp), rest])
+    it.note_unknown(node, f'method partition of {v!r}')
+    return TupleV([seqops.opaque_fresh(it, v.kind, 'partition'), seqops.opaque_fresh(it, v.kind, 'partition'),
+                   seqops.opaque_fresh(it, v.kind, 'partition')])
+
+
 def _m_zfill(it, v, args, kwargs, node):
     w = it.as_lin(args[0])
     if w is None:
@@ -401,7 +417,7 @@ SEQ_METHODS = {
     'isdigit': _charclass('isdigit'), 'isnumeric': _charclass('isnumeric'), 'isdecimal': _charclass('isdecimal'),
     'isalpha': _charclass('isalpha'), 'isalnum': _charclass('isalnum'), 'isspace': _charclass('isspace'),
     'upper': _m_upper, 'lower': _m_lower, 'rstrip': _m_strip('rstrip'), 'lstrip': _m_strip('lstrip'),
-    'strip': _m_strip('strip'), 'ljust': _m_just('<'), 'rjust': _m_just('>'), 'zfill': _m_zfill,
+    'strip': _m_strip('strip'), 'ljust': _m_just('<'), 'rjust': _m_just('>'), 'zfill': _m_zfill, 'partition': _m_partition,
     'format': _m_format, 'translate': _m_translate, 'join': _m_join, 'hex': _m_hex, 'split': _m_generic_seq('split'),
     'replace': _m_replace, 'find': _m_generic_seq('find'), 'count': _m_generic_seq('count'),
     'splitlines': _m_generic_seq('splitlines'), 'title': _m_generic_seq('title'),
